@@ -21,12 +21,28 @@ type GroupedAVP struct {
 	AVP []*AVP
 }
 
+// MaxGroupedAVPDepth is the maximum nesting depth of grouped AVPs accepted
+// when decoding. Decoding, serialising and rendering recurse once per level,
+// and a 16 MB message can nest two million empty groups, which overflows
+// the goroutine stack; deeper nesting than this is rejected with an error.
+var MaxGroupedAVPDepth = 128
+
 // DecodeGrouped decodes a Grouped AVP from a datatype.Grouped (byte array).
 func DecodeGrouped(data datatype.Grouped, application uint32, dictionary *dict.Parser) (*GroupedAVP, error) {
+	return decodeGrouped(data, application, dictionary, 1)
+}
+
+// decodeGrouped decodes the members of a grouped AVP that is itself nested
+// inside depth-1 grouped AVPs.
+func decodeGrouped(data datatype.Grouped, application uint32, dictionary *dict.Parser, depth int) (*GroupedAVP, error) {
+	if depth > MaxGroupedAVPDepth {
+		return nil, fmt.Errorf("Grouped AVPs nested more than %d levels deep", MaxGroupedAVPDepth)
+	}
 	g := &GroupedAVP{}
 	b := []byte(data)
 	for n := 0; n < len(b); {
-		avp, err := DecodeAVP(b[n:], application, dictionary)
+		avp := &AVP{}
+		err := avp.decodeFromBytes(b[n:], application, dictionary, depth)
 		if err != nil {
 			return nil, err
 		}
